@@ -120,14 +120,16 @@ TEXT = {
         "technique": "Lean 4 proof (invariant by induction over operation histories + loop lemmas) + differential correspondence on command histories",
     },
     "C01": {
-        "level": "Kernel-checked local theorems, for every state, block and reply: a piece file is written only under the listed hash of the piece being "
-                 "downloaded, only with contents hashing to it, only by a block answering an outstanding request, and is followed at once by PieceDone (T1); a "
-                 "hash mismatch writes nothing and ends the task with an error (T2), whereupon the manager's kill step resets the piece (C12); in the manager "
-                 "model a piece becomes owned only by pieceDone of the peer it is assigned to (T3, all ten event kinds). PARTIAL: the trace monitor P01 "
-                 "(C01_trace_full) is evaluated on model and implementation traces on every run; its proof for all scripts is not finished. sha1 is a parameter.",
-        "note": KERNEL + "partial: composition of task and manager (System-level invariant over all interleavings of several peers) is argued from T1-T3 + C12 in DESIGN.md, not "
-                "yet a single kernel-checked theorem; file system and SHA-1 collisions outside.",
-        "technique": "Lean 4 proof (case analysis of handle_piece; manager invariant re-used) + trace monitor on model and implementation + differential correspondence",
+        "level": "Kernel-checked for EVERY script of one connection task - frames of any kind (corrupt, duplicate, overlapping, unrequested, truncated "
+                 "blocks), broadcasts, manager replies, ticks, stream ends (C01_trace, monitor P01 proved sound by induction over the script): a piece "
+                 "file is written only under the name of the hash listed for the piece the connection was asked to download, only with contents hashing "
+                 "to exactly that value; PieceDone is reported only immediately after such a store and every store is reported; plus the local theorems "
+                 "T1 (only a block answering an outstanding request can complete a piece), T2 (hash mismatch: nothing written, task ends) and, in the "
+                 "manager model, T3: a piece becomes owned only by pieceDone of the peer it is assigned to (all event kinds). sha1 is a parameter. The "
+                 "same monitor runs on the implementation's trace of every generated script.",
+        "note": KERNEL + "the composition of several tasks with the manager over all interleavings is given by C01_trace per task + T3 + the C12 invariant, "
+                "not by a single system-level theorem; file system (atomic rename), external modification of piece files and SHA-1 collisions outside.",
+        "technique": "Lean 4 proof (trace monitor proved sound for all scripts by induction; case analysis of every handler; manager invariant re-used) + the same monitor on implementation traces + differential correspondence",
     },
     "C11": {
         "level": "Kernel-checked for EVERY script of frames, broadcasts, manager replies, timer ticks and stream ends (C11_trace, by the trace-monitor "
